@@ -4,12 +4,14 @@ import (
 	"fmt"
 	"go/ast"
 	"go/constant"
+	"go/parser"
 	"go/token"
 	"go/types"
 	"math/big"
 	"os"
 	"path/filepath"
 	"sort"
+	"strconv"
 	"strings"
 
 	"golang.org/x/tools/go/packages"
@@ -59,6 +61,10 @@ type Params struct {
 	ContractDirs  []string
 	Edges         []Edge
 	Gates         []Gate
+	// DeployStages: the NNS domain names assigned to syncPrm.domainName in
+	// deploy.Deploy, in source order (the stages of the deployment procedure
+	// after the NNS itself); the per-member Alphabet domain is "alphabet".
+	DeployStages []string
 }
 
 // ExtractParams type-checks ./common and ./contracts/... of the working tree
@@ -350,6 +356,9 @@ func ExtractParams(repo string) (*Params, error) {
 		}
 		visit(deploy, "_deploy")
 	}
+	if res.DeployStages, err = deployStages(repo); err != nil {
+		return nil, err
+	}
 	// dedupe edges (keep first path), stable order
 	var es []Edge
 	have := map[string]bool{}
@@ -402,10 +411,93 @@ func (p *Params) OrderProblems() []string {
 			out = append(out, fmt.Sprintf("%s (position %d) needs %s (position %d) at deployment (%s via %s)", e.From, i, e.To, j, e.Via, e.Path))
 		}
 	}
+	if want := append([]string{"nns"}, p.DeployStages...); strings.Join(want, ",") != strings.Join(p.FsContracts, ",") {
+		out = append(out, fmt.Sprintf("deploy.Deploy deploys nns then %v, fsContracts is %v", p.DeployStages, p.FsContracts))
+	}
 	all := append(append([]string{}, p.FsContracts...), p.MainContracts...)
 	sort.Strings(all)
 	if strings.Join(all, ",") != strings.Join(p.ContractDirs, ",") {
 		out = append(out, fmt.Sprintf("fsContracts+mainContracts = %v, contract directories = %v", all, p.ContractDirs))
 	}
 	return out
+}
+
+// deployStages reads deploy/*.go with go/parser (no type checking: the
+// package imports the whole RPC client) and lists the right-hand sides of
+// `syncPrm.domainName = ...` in func Deploy in source order, resolving
+// identifiers through the package's string constants.
+func deployStages(repo string) ([]string, error) {
+	fset := token.NewFileSet()
+	files, err := filepath.Glob(filepath.Join(repo, "deploy", "*.go"))
+	if err != nil {
+		return nil, err
+	}
+	sort.Strings(files)
+	consts := map[string]string{}
+	var deploy *ast.FuncDecl
+	for _, fn := range files {
+		if strings.HasSuffix(fn, "_test.go") {
+			continue
+		}
+		f, err := parser.ParseFile(fset, fn, nil, 0)
+		if err != nil {
+			return nil, err
+		}
+		for _, d := range f.Decls {
+			switch x := d.(type) {
+			case *ast.FuncDecl:
+				if x.Name.Name == "Deploy" && x.Recv == nil {
+					deploy = x
+				}
+			case *ast.GenDecl:
+				if x.Tok != token.CONST {
+					continue
+				}
+				for _, sp := range x.Specs {
+					vs := sp.(*ast.ValueSpec)
+					for i, id := range vs.Names {
+						if i < len(vs.Values) {
+							if bl, ok := vs.Values[i].(*ast.BasicLit); ok && bl.Kind == token.STRING {
+								if v, err := strconv.Unquote(bl.Value); err == nil {
+									consts[id.Name] = v
+								}
+							}
+						}
+					}
+				}
+			}
+		}
+	}
+	if deploy == nil {
+		return nil, fmt.Errorf("deploy.Deploy not found")
+	}
+	var out []string
+	ast.Inspect(deploy.Body, func(n ast.Node) bool {
+		as, ok := n.(*ast.AssignStmt)
+		if !ok || len(as.Lhs) != 1 || len(as.Rhs) != 1 {
+			return true
+		}
+		sel, ok := as.Lhs[0].(*ast.SelectorExpr)
+		if !ok || sel.Sel.Name != "domainName" {
+			return true
+		}
+		switch r := as.Rhs[0].(type) {
+		case *ast.Ident:
+			if v, ok := consts[r.Name]; ok {
+				out = append(out, v)
+			} else {
+				out = append(out, "?"+r.Name)
+			}
+		case *ast.CallExpr:
+			if id, ok := r.Fun.(*ast.Ident); ok && id.Name == "calculateAlphabetContractAddressDomain" {
+				out = append(out, "alphabet")
+			} else {
+				out = append(out, "?call")
+			}
+		default:
+			out = append(out, "?expr")
+		}
+		return true
+	})
+	return out, nil
 }
